@@ -20,6 +20,9 @@ def main():
 
     _c.use_repo()
     c09.split_lemmas(run)
+    from checks import lxprops
+
+    lxprops.rare_shape_battery(run, "C09")   # segment overrides, decorations, r8-r15, 16-bit pairs: operands in normal form
     hs = [h for h in c09.harnesses(tier()) if any(x in h.name for x in ("/mem4/", "/mem4_nobase/", "/mem3/", "/mem1/", "/mem0/", "/mem3_suffix/", "/mem0_suffix/", "/pair4/", "/pair3/"))]
     for h in hs:
         h.key = "parser_" + h.key
